@@ -14,7 +14,9 @@ RULE = ("main stream: generated VCF files (0-4 samples, 1-8 records, 1-2 contigs
         "missing values and dropped trailing fields; 0-3 ALT alleles; ##phasing line; an INFO field called PS) in three "
         "profiles (tame: only shapes the current code survives; mild; wild), each run through `whatshap unphase` twice; "
         "exhaustive stream: every single-sample genotype over {0,1,.} up to ploidy 4 (quick) / 6 (thorough) with '/' and "
-        "'|'; phase stream: synthetic reads (harness.synth) phased by `whatshap phase` (PS or HP tag, 1-3 samples, "
+        "'|', each with FORMAT tag sets chosen independently of the separator (none, PS, HP, PQ, DP, PS+PQ, DP+PS+HP+PQ: all "
+        "of them up to ploidy 3, two per genotype above), tag-only records without GT, and a corpus of records mixing "
+        "phased / unphased / descending samples; phase stream: synthetic reads (harness.synth) phased by `whatshap phase` (PS or HP tag, 1-3 samples, "
         "unphased / 1/0-ordered / pre-phased / partially missing input), then unphase of input and output, and a second "
         "phase+unphase round. A case is non-trivial if the input carries phase information (a '|' or an HP/PS/PQ "
         "value); distinct = distinct input text.")
@@ -73,7 +75,7 @@ def run_spec(ctx, wd, tag, spec, perturb=None):
     p1 = os.path.join(wd, f"{tag}.out1.vcf")
     with open(p1, "w") as f:
         f.write(out1)
-    res = {"spec": spec, "text": text, "p_in": p_in, "p1": p1, "out1": out1, "exc1": exc1, "rc1": rc1, "err1": err1[-400:]}
+    res = {"spec": spec, "text": text, "p_in": p_in, "p1": p1, "out1": out1, "exc1": exc1, "rc1": rc1, "err1": err1[-2500:]}
     if out1.strip():
         rc2, out2, exc2, err2 = unphase_cli(ctx, p1)
         p2 = os.path.join(wd, f"{tag}.out2.vcf")
@@ -96,20 +98,60 @@ def has_phase_info(spec):
     return False
 
 
-def shape_signature(spec, exc):
-    """signature for a crash on a single-record single-sample spec: classifies the kind of input that fails"""
+def crash_site(stderr):
+    """the statement of whatshap/cli/unphase.py the traceback passes through last ('write' for writer.write)"""
+    site = None
+    lines = stderr.splitlines()
+    for i, l in enumerate(lines):
+        if "cli/unphase.py" in l and i + 1 < len(lines):
+            code = lines[i + 1].strip()
+            if "writer.write" in code:
+                site = "write"
+            elif "sorted" in code:
+                site = "sorted"
+            elif "main(" in code or "run_unphase(" in code:
+                site = site
+            else:
+                site = "record-loop"
+    return site or "unknown"
+
+
+HISTORIC = {"unphase:no-gt-crash": "KeyError", "unphase:haploid-crash": "IndexError", "unphase:partial-polyploid-crash": "TypeError"}
+
+
+def line_signature(fmt, gts, exc, site):
+    """signature for a crash on one record given its FORMAT keys and the GT texts of its samples (None without GT):
+    classifies the kind of input that fails, separately for failures while writing the record"""
+    tags = [k for k in fmt if k in uv.PHASE_KEYS]
+    if site == "write":
+        if tags and "GT" not in fmt:
+            return "unphase:tag-without-gt-crash"
+        if tags and not any("|" in g for g in gts):
+            return "unphase:tag-with-unphased-gt-crash"
+        if tags and not any("|" in g and "/" not in g for g in gts):
+            return "unphase:tag-with-partly-phased-gt-crash"      # 0/1|1: pysam's call.phased is False
+        return f"unphase:write-crash-other:{exc}"
+    sig = None
+    if "GT" not in fmt:
+        sig = "unphase:no-gt-crash"
+    elif len(gts) == 1:
+        al = re.split(r"[/|]", gts[0])
+        if len(al) == 1 and al[0] != ".":
+            sig = "unphase:haploid-crash"
+        elif len(al) >= 3 and al[0] != "." and al[1] != "." and "." in al[2:]:
+            sig = "unphase:partial-polyploid-crash"
+    if sig and HISTORIC[sig] == exc:
+        return sig
+    pattern = ",".join("".join("." if a == "." else "a" for a in re.split(r"[/|]", g)) + ("p" if "|" in g else "u") for g in gts)
+    return f"unphase:crash-other:{exc}:{site}:gt-{pattern or 'none'}{':tags' if tags else ''}"
+
+
+def shape_signature(spec, exc, stderr=""):
+    """signature for a crash on a single-record single-sample spec"""
     rec = spec["records"][0]
     fmt = rec["format"]
-    if "GT" not in fmt:
-        return "unphase:no-gt-crash"
-    gt = rec["calls"][0][fmt.index("GT")]
-    al = re.split(r"[/|]", gt)
-    if len(al) == 1 and al[0] != ".":
-        return "unphase:haploid-crash"
-    if len(al) >= 3 and al[0] != "." and al[1] != "." and "." in al[2:]:
-        return "unphase:partial-polyploid-crash"
-    pattern = "".join("." if a == "." else "a" for a in al)
-    return f"unphase:crash-other:{exc}:gt-{pattern}"
+    gts = [c[fmt.index("GT")] for c in rec["calls"]] if "GT" in fmt else []
+    return line_signature(fmt, gts, exc, crash_site(stderr))
 
 
 def is_single(spec):
@@ -159,7 +201,7 @@ def check_specs(st, specs, label, perturb=None, depth=0):
     cases, kept, nfail = [], [], 0
     for res in results:
         spec = res["spec"]
-        if depth == 1:
+        if depth >= 1:
             st.min_cache[res["text"]] = res["exc1"] is not None
         nontriv = has_phase_info(spec)
         ctx.count(("unphase", res["text"]), nontrivial=nontriv)
@@ -212,12 +254,15 @@ def check_specs(st, specs, label, perturb=None, depth=0):
         res, nout = kept[i]
         spec = res["spec"]
         nfail += 1
-        if is_single(spec):
-            sig = shape_signature(spec, res["exc1"]) if spec["samples"] else f"unphase:crash-other:{res['exc1']}:no-samples"
+        if depth >= 2 or (is_single(spec) and spec["samples"]) or (depth == 1 and len(spec["records"]) == 1):
+            if spec["samples"] and len(spec["records"]) == 1:
+                sig = shape_signature(spec, res["exc1"], res["err1"])
+            else:
+                sig = f"unphase:crash-other:{res['exc1']}:{crash_site(res['err1'])}:{'no-samples' if not spec['samples'] else 'multi-record'}"
             st.crash_counts[sig] = st.crash_counts.get(sig, 0) + 1
-            report(st, sig, f"`whatshap unphase` exits with {res['exc1']} instead of writing the unphased record; input:\n"
-                   + res["text"].split("#CHROM")[1], spec)
-        elif depth == 0:
+            report(st, sig, f"`whatshap unphase` exits with {res['exc1']} (in {crash_site(res['err1'])}) instead of writing the "
+                   "unphased record; input:\n" + res["text"].split("#CHROM")[1], spec)
+        else:
             ms = minimal_specs(spec, nout)
             fresh = []
             for m in ms:
@@ -225,9 +270,7 @@ def check_specs(st, specs, label, perturb=None, depth=0):
                 if key not in st.min_cache:
                     st.min_cache[key] = None          # filled in by the depth-1 run: did this call crash alone?
                     fresh.append(m)
-            minimal.append((spec, res, ms, fresh))
-        else:
-            report(st, f"unphase:crash-other:{res['exc1']}:multi", f"crash on\n{res['text']}", spec)
+            minimal.append((spec, res, ms, fresh, nout))
     for lab, sig, what in (("clean", "unphase:not-clean", "output still carries a phased genotype or an HP/PS/PQ value"),
                            ("frames", "unphase:frame-changed", "output differs from the input in something that is not "
                             "phase information (fixed columns, other FORMAT fields, GT presence or allele multiset)"),
@@ -250,17 +293,29 @@ def check_specs(st, specs, label, perturb=None, depth=0):
         ctx.l2_disagreement("Unphase.unphase_header / written prefix = map unphase_fixed = CLI output (" + ",".join(names) + ")",
                             [{"spec": kept[i][0]["spec"], "exception": kept[i][0]["exc1"], "output": kept[i][0]["out1"][-800:]}
                              for i in l2])
-    # ---- reduce crashing multi-call files to the crashing call
+    # ---- reduce crashing files to the crashing call, or (if no call crashes alone) to the crashing record
     if minimal:
-        fresh_all = [m for _, _, _, fresh in minimal for m in fresh]
+        fresh_all = [m for _, _, _, fresh, _ in minimal for m in fresh]
         nfail += check_specs(st, fresh_all, "min", perturb=None, depth=1)
-        for spec, res, ms, fresh in minimal:
-            # the run stopped at this record: at least one of its calls must crash alone (then it was reported
-            # under the signature of its shape); otherwise the whole file is the finding
-            if not any(st.min_cache.get(uv.write_text(m)) for m in ms):
-                report(st, f"unphase:crash-other:{res['exc1']}:not-reducible-to-one-call",
-                       f"`whatshap unphase` exits with {res['exc1']}; no single call of the record it stopped at "
-                       f"reproduces it; input:\n{res['text']}", spec)
+        whole = []
+        for spec, res, ms, fresh, nout in minimal:
+            if any(st.min_cache.get(uv.write_text(m)) for m in ms):
+                continue          # reported under the signature of the call's shape
+            if nout < len(spec["records"]):
+                m = {k: copy.deepcopy(v) for k, v in spec.items() if k != "records"}
+                m["records"] = [copy.deepcopy(spec["records"][nout])]
+                m["profile"] = "minimal-record"
+                whole.append((spec, res, m))
+            else:
+                report(st, f"unphase:crash-other:{res['exc1']}:{crash_site(res['err1'])}:after-last-record",
+                       f"`whatshap unphase` exits with {res['exc1']} after writing every record; input:\n{res['text']}", spec)
+        if whole:
+            nfail += check_specs(st, [m for _, _, m in whole], "minrec", perturb=None, depth=2)
+            for spec, res, m in whole:
+                if not st.min_cache.get(uv.write_text(m)):
+                    report(st, f"unphase:crash-other:{res['exc1']}:{crash_site(res['err1'])}:not-reducible-to-one-record",
+                           f"`whatshap unphase` exits with {res['exc1']}; the record it stopped at does not reproduce it "
+                           f"alone; input:\n{res['text']}", spec)
     return nfail
 
 
@@ -343,7 +398,7 @@ def run_phase_case(ctx, wd, tag, payload):
         up = os.path.join(d, f"u{k}.vcf")
         with open(up, "w") as f:
             f.write(out)
-        res["files"].append({"path": p, "text": open(p).read(), "upath": up, "utext": out, "exc": exc})
+        res["files"].append({"path": p, "text": open(p).read(), "upath": up, "utext": out, "exc": exc, "err": err[-2500:]})
     return res
 
 
@@ -361,6 +416,12 @@ def make_phase_payload(rng, sc):
                 elif x < 0.19:
                     overrides.append([s, c, i, "0/."])
     prephased = rng.random() < 0.3
+    if not any(o[3] == "1/0" for o in overrides):
+        hets = [(s, c, i) for s in sc.samples for c in sc.chroms for i in range(len(sc.variants[c]))
+                if sc.haps[s][c][i][0] != sc.haps[s][c][i][1] and not any(o[:3] == [s, c, i] for o in overrides)]
+        if hets:
+            s_, c_, i_ = rng.choice(hets)
+            overrides.append([s_, c_, i_, "1/0"])
     return {"sc": sc.to_json(), "seed": rng.randrange(1 << 30), "nreads": rng.choice([15, 30, 60]),
             "prephased": prephased, "overrides": [] if prephased else overrides,
             "rounds": rng.choice([["PS"], ["HP"], ["PS", "HP"], ["HP", "PS"], ["PS", "PS"]]),
@@ -377,7 +438,7 @@ def check_phase(st, payloads, label="phase", perturb=None):
     st.counter += len(payloads)
     with ThreadPoolExecutor(max_workers=16) as ex:
         results = list(ex.map(lambda a: run_phase_case(ctx, st.wd, f"{label}{base + a[0]}", a[1]), enumerate(payloads)))
-    cases, kept, nfail = [], [], 0
+    cases, kept, nfail, crashed = [], [], 0, []
     for res in results:
         if "error" in res:
             raise RuntimeError("harness: " + res["error"])
@@ -387,8 +448,17 @@ def check_phase(st, payloads, label="phase", perturb=None):
             with open(files[-1]["upath"], "w") as f:
                 f.write(files[-1]["utext"])
         orig = files[0]
+        # totality on the files of this stream: a failing unphase run is reduced to the record it stopped at
+        for k, f in enumerate(files):
+            ctx.tally(f"{label}.unphase_runs")
+            if f["exc"] is not None:
+                nfail += 1
+                ctx.tally(f"{label}.unphase_crashes")
+                what = "the synthetic input of `whatshap phase`" if k == 0 else \
+                    f"the output of `whatshap phase --tag {res['payload']['rounds'][k - 1]}`"
+                crashed.append((res, k, f, what))
         if orig["exc"] is not None:
-            raise RuntimeError(f"harness: unphase of the synthetic phase input failed: {orig['exc']}")
+            continue
         _, r_orig = uv.parse_vcf(orig["path"], orig["text"], st.interner)
         _, u_orig = uv.parse_vcf(orig["upath"], orig["utext"], st.interner)
         for k, f in enumerate(files[1:]):
@@ -396,9 +466,6 @@ def check_phase(st, payloads, label="phase", perturb=None):
             ctx.tally(f"{label}.pairs")
             ctx.tally(f"{label}.tag.{res['payload']['rounds'][k]}")
             if f["exc"] is not None:
-                nfail += 1
-                report_phase(st, f"unphase:crash-after-phase:{f['exc']}", f"unphase of a file written by whatshap phase fails ({f['exc']})",
-                             res["payload"])
                 continue
             _, r_ph = uv.parse_vcf(f["path"], f["text"], st.interner)
             _, u_ph = uv.parse_vcf(f["upath"], f["utext"], st.interner)
@@ -406,6 +473,8 @@ def check_phase(st, payloads, label="phase", perturb=None):
             ctx.tally(f"{label}.phased_calls", nph)
             cases.append(f"(({uv.recs_term(r_orig)}, {uv.recs_term(r_ph)}, ({uv.recs_term(u_orig)}, {uv.recs_term(u_ph)})) : pcase)")
             kept.append((res, k))
+    if crashed:
+        nfail += reduce_phase_crashes(st, crashed)
     failing, errors = eval_checks("C13p", HEADER, PCHECKS, cases, shard=40)
     if errors:
         raise RuntimeError("coq evaluation failed: " + errors[0][1])
@@ -427,6 +496,60 @@ def check_phase(st, payloads, label="phase", perturb=None):
     return nfail
 
 
+def spec_from_vcf_line(header_line, line):
+    """single-record spec (with this module's own header) from a record line of a phase-stream file"""
+    cols = line.split("\t")
+    samples = header_line.split("\t")[9:]
+    s = uv.single_call_spec("0/1")
+    s["contigs"] = [cols[0]]
+    s["samples"] = samples
+    s["formats"] = [["GT", "1", "String"], ["DP", "1", "Integer"], ["PS", "1", "Integer"], ["HP", ".", "String"],
+                    ["PQ", "1", "Integer"], ["GQ", "1", "Integer"]]
+    fixed = cols[:8]
+    fixed[1] = int(fixed[1])
+    fmt = [] if len(cols) < 9 or cols[8] == "." else cols[8].split(":")
+    s["records"] = [{"fixed": fixed, "format": fmt, "calls": [c.split(":") for c in cols[9:]]}]
+    s["profile"] = "phase-stream-record"
+    return s
+
+
+def reduce_phase_crashes(st, crashed):
+    """unphase failed on a file of the phase stream: re-run the record it stopped at as a one-record file (evaluated
+    and classified like the main stream); if that does not reproduce the failure, report the whole payload"""
+    nfail = 0
+    specs, back = [], []
+    for res, k, f, what in crashed:
+        lines = f["text"].rstrip("\n").split("\n")
+        hdr = [l for l in lines if l.startswith("#CHROM")][0]
+        body = [l for l in lines if not l.startswith("#")]
+        nwritten = len([l for l in f["utext"].split("\n") if l and not l.startswith("#")])
+        if nwritten < len(body):
+            spec = spec_from_vcf_line(hdr, body[nwritten])
+            if set(spec["records"][0]["format"]) <= {x[0] for x in spec["formats"]}:
+                specs.append(spec)
+                back.append((res, k, f, what, spec, body[nwritten]))
+                continue
+        report_phase(st, f"unphase:crash-other:{f['exc']}:{crash_site(f['err'])}:phase-stream",
+                     f"`whatshap unphase` fails with {f['exc']} on {what}", res["payload"])
+    seen, uniq = set(), []
+    for sp in specs:
+        t = uv.write_text(sp)
+        if t not in seen:
+            seen.add(t)
+            uniq.append(sp)
+    nfail += check_specs(st, uniq[:40], "phmin", depth=2)
+    for res, k, f, what, spec, line in back:
+        fmt = spec["records"][0]["format"]
+        gts = [c[0] for c in spec["records"][0]["calls"]] if "GT" in fmt else []
+        sig = line_signature(fmt, gts, f["exc"], crash_site(f["err"]))
+        reproduced = st.min_cache.get(uv.write_text(spec))
+        # also reported with the payload as replay, so that the finding is tied to a file whatshap itself wrote
+        report_phase(st, sig if reproduced or reproduced is None else sig + ":phase-stream-only",
+                     f"`whatshap unphase` exits with {f['exc']} (in {crash_site(f['err'])}) on {what}; it stopped at the "
+                     f"record\n{line}", res["payload"])
+    return nfail
+
+
 def report_phase(st, sig, what, payload):
     n = st.reported.get(sig, 0)
     st.reported[sig] = n + 1
@@ -440,6 +563,16 @@ CORPUS = [
     uv.single_call_spec("1"), uv.single_call_spec("0|1|."), uv.single_call_spec("0|1", fmt=["DP", "PS"], call=["7", "100"]),
     uv.single_call_spec("."), uv.single_call_spec("./."), uv.single_call_spec("0/."), uv.single_call_spec(".|1"),
     uv.single_call_spec("1|0"), uv.single_call_spec("1|0|1|0"), uv.single_call_spec(".|0|1"), uv.single_call_spec("1/0|0"),
+    # phase tags next to genotypes without '|' (what `whatshap phase --tag HP` writes), descending unphased genotypes,
+    # tag-only records, and records mixing phased and unphased samples
+    uv.single_call_spec("0/1", tags=["HP"]), uv.single_call_spec("0/1", tags=["PS"]), uv.single_call_spec("0/1", tags=["PQ"]),
+    uv.single_call_spec("1/0", tags=[]), uv.single_call_spec("1/0", tags=["HP"]), uv.single_call_spec("1/1/0", tags=["DP"]),
+    uv.single_call_spec(None, tags=["PS"]), uv.single_call_spec(None, tags=["HP"]), uv.single_call_spec(None, tags=["PQ"]),
+    uv.multi_call_spec(["GT", "PS"], [["1|0", "100"], ["1/0", "."]]),
+    uv.multi_call_spec(["GT", "HP"], [["1/0", "100-2,100-1"], ["0/1", "."], ["1/1", "."]], nrec_before=1),
+    uv.multi_call_spec(["GT", "DP", "PQ"], [["0/1", "3", "40"], ["./.", ".", "."]], nrec_before=2),
+    uv.multi_call_spec(["GT"], [["1/0"], ["0|1"], ["1/0/0"]]),
+    uv.multi_call_spec(["PS", "DP"], [["100", "3"], [".", "4"]], nrec_before=1),
 ]
 
 
@@ -476,7 +609,7 @@ def run(ctx):
         s["profile"] = "corpus"
     # 1. corpus + exhaustive single-call space
     maxp = ctx.n(4, 6)
-    ex = [uv.single_call_spec(g, with_tags=(i % 2 == 0)) for i, g in enumerate(uv.exhaustive_gt_texts(maxp))]
+    ex = uv.exhaustive_specs(maxp)
     for s in ex:
         s["profile"] = "exhaustive"
     check_specs(st, CORPUS + ex, "ex", perturb=pert)
